@@ -1,43 +1,87 @@
 ------------------------------- MODULE Crash -------------------------------
 (***************************************************************************)
 (* Crash atomicity of block commit / removal (property C13).               *)
-(* A step (ProcessValidated, DeleteBlock) is split the way the code is     *)
-(* shaped: prepare (reads, application call), Writes durable writes, cache *)
-(* update.  The database write itself is all-or-nothing (pebble WAL record *)
-(* - trusted).  Crash may happen between any two sub-steps; Recover is     *)
-(* PrepareCache on the durable state.  The durable state is abstracted to  *)
-(* the set of "effects" of the step that have reached the disk: the step   *)
-(* has NEffects effects (block+indexes, consensus store, revert diff,      *)
-(* finalized height ...) distributed over the Writes writes by the         *)
-(* implementation-shape constant Layout (sequence: write i carries the     *)
-(* effects Layout[i]).  AtomicRecovery: whatever the crash point, the      *)
-(* recovered state has all effects of the step or none.                    *)
-(* The code's intended shape is Layout = << all effects >> (one batch).    *)
-(* The harness measures which durable states the real code exposes over    *)
-(* all file-system crash points; CrashTrace.tla checks each observation.   *)
+(*                                                                         *)
+(* A step of the statement (AddBlock / RemoveBlock / processValidated /    *)
+(* deleteBlock, the genesis commit, the tie-break composite) is modelled   *)
+(* the way the code is shaped: prepare (reads, application call), a        *)
+(* sequence of writes to the database, cache update.  One write is         *)
+(* all-or-nothing (pebble WAL record - trusted); it is either synced by    *)
+(* itself or left to a later sync of the same log.  A crash may happen     *)
+(* between any two sub-steps, under one of two crash models:               *)
+(*   powerloss     everything that was not synced is lost                  *)
+(*   processdeath  everything handed to the operating system survives      *)
+(* Recover is PrepareCache on what the crash left.                         *)
+(*                                                                         *)
+(* The database is abstracted to the set of EFFECTS of the step that are   *)
+(* found at restart.  An implementation SHAPE says                         *)
+(*   stages  the atomic sub-steps the STATEMENT sees (a plain step has one *)
+(*           stage; a tie break has two: removal of the tip, addition of   *)
+(*           the competitor), each a set of effects                        *)
+(*   layout  write i carries the effects layout[i]                         *)
+(*   synced  synced[i]: write i is followed by its own sync                *)
+(*   needs   the OPTIONAL effects (not named by the statement: pruning of  *)
+(*           revert diffs / events of finalized heights) with the effects  *)
+(*           each of them depends on: the pruned data is dead only once    *)
+(*           the raised finalized height is durable                        *)
+(*   safe    the crash models under which the shape must be atomic         *)
+(*                                                                         *)
+(* AtomicRecovery: whatever the crash point, the effects found at restart  *)
+(* are, apart from optional ones, exactly those of a prefix of the stages  *)
+(* (none or all for a plain step), and an optional effect is never found   *)
+(* without what it needs.  A recovered node that found none of the effects *)
+(* can perform the step again and then has all of them (Redo).             *)
+(*                                                                         *)
+(* The code's intended shape is one batch per stage.  The harness measures *)
+(* which states the real code exposes over all file-system crash points    *)
+(* under both crash models; CrashTrace.tla checks each observation.        *)
 (***************************************************************************)
 EXTENDS Integers, Sequences, FiniteSets, TLC
 
-CONSTANTS Effects,   \* set of effect names of one step
-          Layout     \* sequence of sets of effects: the durable writes of the step, in order
+CONSTANTS Shapes     \* set of [name, stages, layout, synced, needs, safe]
+CrashModels == {"powerloss", "processdeath"}
 
-VARIABLES pc, durable, crashed, recovered
-vars == <<pc, durable, crashed, recovered>>
+VARIABLES shape, model, pc, written, durable, crashed, recovered, redone
+vars == <<shape, model, pc, written, durable, crashed, recovered, redone>>
 
-Writes == Len(Layout)
+Writes == Len(shape.layout)
+Upto(st, i) == UNION {st[j] : j \in 1..i}
+Effects == Upto(shape.stages, Len(shape.stages))
+Optional == DOMAIN shape.needs
 
-Init == pc = 0 /\ durable = {} /\ crashed = FALSE /\ recovered = FALSE
+\* what the restarted node finds
+Found == IF model = "processdeath" THEN written ELSE durable
+
+\* pure form, also used on harness observations: found is a prefix of the stages apart from optional effects, and no optional
+\* effect without its prerequisites
+Admissible(found, stages, needs) ==
+  /\ \E i \in 0..Len(stages) : found \ DOMAIN needs = Upto(stages, i) \ DOMAIN needs
+  /\ \A e \in found \cap DOMAIN needs : needs[e] \subseteq found
+
+Init == /\ shape \in Shapes /\ model \in CrashModels
+        /\ pc = 0 /\ written = {} /\ durable = {} /\ crashed = FALSE /\ recovered = FALSE /\ redone = FALSE
 \* pc 0: before prepare; 1..Writes: before write pc; Writes+1: before cache update; Writes+2: done
-Prepare == pc = 0 /\ ~crashed /\ pc' = 1 /\ UNCHANGED <<durable, crashed, recovered>>
+Prepare == pc = 0 /\ ~crashed /\ pc' = 1 /\ UNCHANGED <<shape, model, written, durable, crashed, recovered, redone>>
 Write == /\ pc \in 1..Writes /\ ~crashed
-         /\ durable' = durable \cup Layout[pc] /\ pc' = pc + 1 /\ UNCHANGED <<crashed, recovered>>
-CacheUpdate == pc = Writes + 1 /\ ~crashed /\ pc' = pc + 1 /\ UNCHANGED <<durable, crashed, recovered>>
-CrashNow == ~crashed /\ pc <= Writes + 1 /\ crashed' = TRUE /\ UNCHANGED <<pc, durable, recovered>>
-Recover == crashed /\ ~recovered /\ recovered' = TRUE /\ UNCHANGED <<pc, durable, crashed>>
+         /\ written' = written \cup shape.layout[pc]
+         /\ durable' = IF shape.synced[pc] THEN written' ELSE durable      \* one log: a sync carries everything written before it
+         /\ pc' = pc + 1 /\ UNCHANGED <<shape, model, crashed, recovered, redone>>
+CacheUpdate == pc = Writes + 1 /\ ~crashed /\ pc' = pc + 1 /\ UNCHANGED <<shape, model, written, durable, crashed, recovered, redone>>
+CrashNow == ~crashed /\ pc <= Writes + 1 /\ crashed' = TRUE /\ UNCHANGED <<shape, model, pc, written, durable, recovered, redone>>
+Recover == crashed /\ ~recovered /\ recovered' = TRUE /\ UNCHANGED <<shape, model, pc, written, durable, crashed, redone>>
+\* the recovered node is on the state before the step: it performs the step again, this time to the end
+Redo == /\ recovered /\ ~redone /\ Found \ Optional = {} /\ Admissible(Found, shape.stages, shape.needs)
+        /\ written' = Effects /\ durable' = Effects /\ redone' = TRUE
+        /\ UNCHANGED <<shape, model, pc, crashed, recovered>>
 
-Next == Prepare \/ Write \/ CacheUpdate \/ CrashNow \/ Recover
+Next == Prepare \/ Write \/ CacheUpdate \/ CrashNow \/ Recover \/ Redo
 Spec == Init /\ [][Next]_vars
 
-LayoutOK == UNION {Layout[i] : i \in 1..Writes} = Effects
-AtomicRecovery == recovered => (durable = {} \/ durable = Effects)
+LayoutOK == \A s \in Shapes : Upto(s.layout, Len(s.layout)) = Upto(s.stages, Len(s.stages)) /\ Len(s.synced) = Len(s.layout)
+AtomicOK == Admissible(Found, shape.stages, shape.needs)
+AtomicRecovery == (recovered /\ model \in shape.safe) => AtomicOK
+RedoCompletes == redone => Found = Effects
+\* non-vacuity control: every shape / crash model that is NOT expected to be atomic really exposes a forbidden state
+\* (always TRUE; the driver collects the printed names and compares them with the expected list)
+Control == (recovered /\ ~redone /\ model \notin shape.safe /\ ~AtomicOK) => PrintT(<<"CONTROL", shape.name, model>>)
 =============================================================================
